@@ -109,7 +109,13 @@ def _concurrent_case(case):
             def on_receive_store(self, context, ds):
                 world.sim.sleep(rnd.choice([0.0, 0.3]))
                 return 0
-        srv = world.make_ae(Srv, 'SRV', 11112, [rc.IMPLICIT_LE], 16384)
+            def on_commitment_response(self, transaction_uid, success, failure):
+                world.sim.sleep(rnd.choice([0.0, 0.2]))
+        # the peers differ in transfer syntax and in what a context id stands for: the same id
+        # names different SOP classes / syntaxes in associations that are alive together
+        TSS = [(rc.IMPLICIT_LE, True, True), (rc.EXPLICIT_LE, False, True),
+               (rc.EXPLICIT_BE, False, False)]
+        srv = world.make_ae(Srv, 'SRV', 11112, [t[0] for t in TSS], 16384)
         srv.timeout = 120
 
         def store2(asce, ctx, msg):
@@ -117,28 +123,34 @@ def _concurrent_case(case):
         store2.sop_classes = [CT, MR]
         store2.store_in_file = True
         srv.add_scp(sopclass.verification_scp).add_scp(store2).add_scp(sopclass.qr_find_scp)
+        srv.add_scp(sopclass.StorageCommitment())
         world.serve_ae(srv, ADDR)
         plans = []
         for i in range(case['npeers']):
-            plans.append(dict(kind=rnd.choice(['find', 'find', 'store', 'echo']),
+            plans.append(dict(kind=rnd.choice(['find', 'find', 'store', 'echo', 'n_event_report']),
                               mid=rnd.choice(MIDS + [rnd.randrange(65536)]),
                               sop=rnd.choice([FIND, SFIND]), k=rnd.randint(1, 3),
                               pcid=rnd.choice([1, 3]), inst='1.2.3.%d.%d' % (i, rnd.randrange(9999)),
-                              store_sop=rnd.choice([CT, MR]), got=[]))
+                              store_sop=rnd.choice([CT, MR]), got=[], ts=rnd.choice(TSS),
+                              delay=rnd.choice([0.0, 0.05, 0.3, 0.3])))
         for i, pl in enumerate(plans):
             def script(peer, pl=pl, i=i):
                 p = peer.associate()
                 if not isinstance(p, dict) or p['kind'] != 'A-ASSOCIATE-AC':
                     pl['noassoc'] = True
                     return
-                world.sim.sleep(rnd.choice([0.0, 0.05, 0.3]))
+                world.sim.sleep(pl['delay'])
+                _ts, imp, le = pl['ts']
+
+                def _enc(ds_):          # this peer's negotiated transfer syntax
+                    return enc_ds(ds_, imp, le)
                 if pl['kind'] == 'find':
                     q = pydicom.Dataset()
                     q.PatientName = 'P%d' % i
                     q.PatientID = str(pl['k'])
                     peer.send_message(pl['pcid'], {0x0002: pl['sop'], 0x0100: 0x0020,
                                                    0x0110: pl['mid'], 0x0700: 0, 0x0800: 1},
-                                      enc_ds(q))
+                                      _enc(q))
                     want = pl['k'] + 1
                 elif pl['kind'] == 'store':
                     d = pydicom.Dataset()
@@ -147,7 +159,18 @@ def _concurrent_case(case):
                     d.PatientName = 'S%d' % i
                     peer.send_message(pl['pcid'], {0x0002: pl['store_sop'], 0x0100: 0x0001,
                                                    0x0110: pl['mid'], 0x0700: 0, 0x0800: 1,
-                                                   0x1000: pl['inst']}, enc_ds(d))
+                                                   0x1000: pl['inst']}, _enc(d))
+                    want = 1
+                elif pl['kind'] == 'n_event_report':
+                    d = pydicom.Dataset()
+                    d.TransactionUID = '1.2.3.778.%d' % i
+                    it = pydicom.Dataset()
+                    it.ReferencedSOPClassUID = CT
+                    it.ReferencedSOPInstanceUID = '1.2.3.9.%d' % i
+                    d.ReferencedSOPSequence = pydicom.Sequence([it])
+                    peer.send_message(pl['pcid'], {0x0002: COMMIT, 0x0100: 0x0100,
+                                                   0x0110: pl['mid'], 0x0800: 1,
+                                                   0x1000: COMMIT_INST, 0x1002: 1}, _enc(d))
                     want = 1
                 else:
                     peer.send_message(pl['pcid'], {0x0002: rc.VERIFICATION, 0x0100: 0x0030,
@@ -161,8 +184,9 @@ def _concurrent_case(case):
                 pl['want'] = want
                 if not peer.eof and not peer.reset:
                     peer.release()
-            sop_for = {'find': pl['sop'], 'store': pl['store_sop'], 'echo': rc.VERIFICATION}[pl['kind']]
-            ctxs = ((pl['pcid'], sop_for, (rc.IMPLICIT_LE,)),)
+            sop_for = {'find': pl['sop'], 'store': pl['store_sop'], 'echo': rc.VERIFICATION,
+                       'n_event_report': COMMIT}[pl['kind']]
+            ctxs = ((pl['pcid'], sop_for, (pl['ts'][0],)),)
             peer = peers.ScriptedRequestor(world.sim, world.net, ADDR, ctxs, script=script)
             world.spawn(peer.run, 'scu%d' % i, role='user')
         world.run(tmax=900)
@@ -173,9 +197,24 @@ def _concurrent_case(case):
             if len(pl['got']) != pl.get('want'):
                 v('request-not-answered', 'peer %d (%s): %d of %r responses' % (
                     i, pl['kind'], len(pl['got']), pl.get('want')))
-            sop_for = {'find': pl['sop'], 'store': pl['store_sop'], 'echo': rc.VERIFICATION}[pl['kind']]
-            for m in pl['got']:
+            sop_for = {'find': pl['sop'], 'store': pl['store_sop'], 'echo': rc.VERIFICATION,
+                       'n_event_report': COMMIT}[pl['kind']]
+            for j, m in enumerate(pl['got']):
                 f = m['fields']
+                if pl['kind'] == 'find' and j < pl['k']:
+                    # the identifier of a match is encoded in THIS association's syntax
+                    from pydicom import filebase, filereader
+                    name = None
+                    try:
+                        fp = filebase.DicomBytesIO(m['data'] or b'')
+                        fp.is_implicit_VR, fp.is_little_endian = pl['ts'][1], pl['ts'][2]
+                        name = str(filereader.read_dataset(fp, pl['ts'][1], pl['ts'][2]).PatientName)
+                    except Exception as e:  # pylint: disable=broad-except
+                        name = 'undecodable: %r' % (e,)
+                    if name != 'P%d/%d' % (i, j):
+                        v('match-identifier-not-in-negotiated-syntax-or-foreign',
+                          'peer %d (%s) match %d: %r, expected %r' % (i, pl['ts'][0], j, name,
+                                                                     'P%d/%d' % (i, j)))
                 if f.get(0x0120) != pl['mid']:
                     v('message-id-being-responded-to-wrong',
                       'peer %d (%s) asked with id %d, got a response for %r; other peers %r' % (
